@@ -70,10 +70,13 @@ def job_q(job, seed):
     sc, tof = _load()
     fresh_run()
     obs, cands = [], []
-    case = {'kind': 'Q', 'what': what}
+    what, _, lam_dtype = what.partition(':')
+    lam_dtype = lam_dtype or 'float64'
+    case = {'kind': 'Q', 'what': what, 'wavelength_dtype': lam_dtype}
     uL, b1, b2 = _beams(sym_unit('L2', 'm') if what == 'units' else None)
     uW = sym_unit('W', 'm')
-    lam = sym_scalar('lam', uW)
+    lam = sym_scalar('lam', uW, lam_dtype)
+    what = what if lam_dtype == 'float64' else f'{what}[{lam_dtype} wavelength]'
 
     def chk(name, goal, assumptions=(), sig='C08:Q'):
         ob = C.prove(f'Q:{what}:{name}', goal, assumptions=assumptions, timeout_ms=30000)
@@ -95,7 +98,7 @@ def job_q(job, seed):
         k_si = 2 * PI() / si_value(lam)
         expect = vscale(vsub(ei, ef), k_si)
     comps = [q['Qx'], q['Qy'], q['Qz']]
-    if what in ('definition', 'units'):
+    if what.startswith(('definition', 'units')):
         for nm, cv, ev in zip('xyz', comps, expect, strict=True):
             chk(f'Q{nm}=(2pi/lambda)(e_i-e_f).{nm}', si_value(cv) == ev)
             chk(f'unit(Q{nm})=1/unit(lambda)', C.B.const(cv.unit == V.Unit() / uW))
@@ -275,9 +278,11 @@ def run(chk):
 
     chk.functions = loader.describe([tof.Q_elements_from_wavelength, tof.Q_vec_from_Q_elements, tof.hkl_vec_from_Q_vec,
                                      tof.ub_matrix_from_u_and_b, tof.hkl_elements_from_hkl_vec, tof.Q_from_wavelength])
-    run_jobs(chk, job_q, ['definition', 'units', 'rescale', 'rotation'])
+    run_jobs(chk, job_q, ['definition', 'units', 'rescale', 'rotation', 'definition:int64', 'definition:float32', 'units:int64'])
     run_jobs(chk, job_hkl, ['scalar', 'array'])
     run_jobs(chk, job_inv_model, [0])
+    from . import shimval
+    shimval.validate(chk, 'qvec', 40 if chk.tier == 'quick' else 240)
     chk.bounds = {'shapes': 'scalar operands', 'matrices': 'U, B, R arbitrary real 3x3 (non-singular R.UB); W = inv(R.UB) as 9 fresh variables with M.W = I'}
     chk.stubs = ['scipp -> symsc', 'numpy pi -> symbolic pi', 'spatial.inv -> fresh matrix W with contract M.W = I (lemma chain)']
     chk.axioms = ['sin^2(theta) = (1-c)/2 (half-angle, from C03 cos(two_theta)=c)', 'rotation: abstraction lemma + rotation about z']
@@ -292,13 +297,18 @@ def replay_real(case):
 
     rng = np.random.default_rng(2)
     bad = []
+    ldt = case.get('wavelength_dtype', 'float64')
     for _ in range(100):
         b1, b2 = rng.normal(size=3) * 10 ** rng.uniform(-2, 2), rng.normal(size=3) * 10 ** rng.uniform(-2, 2)
         lam = 10 ** rng.uniform(-2, 2)
-        q = rt.Q_elements_from_wavelength(wavelength=sc.scalar(lam, unit='angstrom'), incident_beam=sc.vector(b1, unit='m'), scattered_beam=sc.vector(b2, unit='mm'))
+        if ldt == 'int64':
+            lam = int(rng.integers(1, 20))
+        elif ldt == 'float32':
+            lam = float(np.float32(lam))
+        q = rt.Q_elements_from_wavelength(wavelength=sc.scalar(lam, unit='angstrom', dtype=ldt), incident_beam=sc.vector(b1, unit='m'), scattered_beam=sc.vector(b2, unit='mm'))
         exp = 2 * np.pi / lam * (b1 / np.linalg.norm(b1) - b2 / np.linalg.norm(b2))
         got = np.array([q['Qx'].value, q['Qy'].value, q['Qz'].value])
-        if not np.allclose(got, exp, rtol=1e-12, atol=1e-13 * np.linalg.norm(exp)):
+        if not np.allclose(got, exp, rtol=1e-12 if ldt != 'float32' else 1e-6, atol=(1e-13 if ldt != 'float32' else 1e-7) * np.linalg.norm(exp)):
             bad.append(f'Q {got} vs {exp}')
         if q['Qx'].unit != sc.Unit('1/angstrom'):
             bad.append(f'unit {q["Qx"].unit}')
